@@ -34,6 +34,14 @@ Definition fcanon (x : F) : F :=
   | _ => x
   end.
 
+(** Canonical finite floats: the values of the machine. *)
+Definition is_canon (f : F) : bool :=
+  match f with
+  | B754_zero s => negb s
+  | B754_finite _ _ _ _ => true
+  | _ => false
+  end.
+
 (** Errors of the abstract machine. *)
 Inductive err : Type :=
   | EOverflow      (* signed 32-bit overflow, or an integer literal outside int32 *)
